@@ -239,17 +239,20 @@ func judgeC07(c *C07Case, cx *Ctx) (v *Violation) {
 		want = c2.InflatePaths64(c.Subj, c.Delta*scale, c.Join, c.End, c2.WithArcTolerance(scale*c.ArcTol))
 		extra = fmt.Sprintf(" delta=%v arcTol=%v join=%s end=%s", c.Delta, c.ArcTol, joinName(c.Join), endName(c.End))
 	case "minkSum", "minkDiff":
-		pat, pth := subjD[0], c2.PathD{}
+		// (pattern x path parallelograms are united: 60 x 60 random points take minutes, which the
+		// framework's watchdog would report as a hang; 12 x 12 bounds the cost)
+		pat, pth := subjD[0][:min(len(subjD[0]), 12)], c2.PathD{}
+		pat64 := c.Subj[0][:min(len(c.Subj[0]), 12)]
 		var pth64 Path
 		if len(clipD) > 0 {
-			pth, pth64 = clipD[0], c.Clip[0]
+			pth, pth64 = clipD[0][:min(len(clipD[0]), 12)], c.Clip[0][:min(len(c.Clip[0]), 12)]
 		}
 		if c.Op == "minkSum" {
 			got = c2.MinkowskiSumD(pat, pth, c.Closed, pa...)
-			want = c2.MinkowskiSum64(c.Subj[0], pth64, c.Closed)
+			want = c2.MinkowskiSum64(pat64, pth64, c.Closed)
 		} else {
 			got = c2.MinkowskiDiffD(pat, pth, c.Closed, pa...)
-			want = c2.MinkowskiDiff64(c.Subj[0], pth64, c.Closed)
+			want = c2.MinkowskiDiff64(pat64, pth64, c.Closed)
 		}
 	case "rectclip":
 		got = c2.RectClipPathsD(c.rectFloat(), subjD, pa...)
